@@ -13,6 +13,7 @@ From KV Require Import SSTable Xxhash Block SSTFile.
 From KV Require Import Iter.
 From KV Require Import Compaction.
 From KV Require Import Txn.
+From KV Require Import TxnAtomic.
 Extraction Language OCaml.
 (* Coq's String module (identifiers of the C07 lock table) must not shadow OCaml's: it is emitted as String0 *)
 Extraction Blacklist String.
@@ -48,4 +49,5 @@ Separate Extraction
   Compaction.cfull Compaction.ctrigger Compaction.crange Compaction.creopen Compaction.cget Compaction.select
   Compaction.select_range Compaction.dsort Compaction.nfresh
   Txn.ser_check Txn.ser_why
+  TxnAtomic.atomic_check TxnAtomic.first_reject TxnAtomic.crun TxnAtomic.twrites TxnAtomic.cinit
 .
